@@ -680,23 +680,11 @@ func (c *Collection) FindOneAndDelete(ctx context.Context, filter interface{}, o
 
 	// delete documents
 	res, err := useTransaction(ctx, c.engine, true, func(txn *Transaction) (interface{}, error) {
-		// remember the state of the transaction
-		catalog, dirty := txn.Catalog(), txn.Dirty()
-
-		res, err := txn.Delete(c.handle, query, sort, 0, 1)
-		if err != nil {
-			return nil, err
-		}
-
-		// reject an invalid projection while the write can still be undone
-		// (the transaction may be a session transaction that lives on)
-		err = checkProjection(projection, res)
-		if err != nil {
-			txn.reset(catalog, dirty)
-			return nil, err
-		}
-
-		return res, nil
+		// reject an invalid projection before the write becomes part of the
+		// transaction (it may be a session transaction that lives on)
+		return txn.deleteChecked(c.handle, query, sort, 0, 1, func(res *Result) error {
+			return checkProjection(projection, res)
+		})
 	})
 	if err != nil {
 		return &SingleResult{err: err}
@@ -796,23 +784,11 @@ func (c *Collection) FindOneAndReplace(ctx context.Context, filter, replacement 
 
 	// insert document
 	res, err := useTransaction(ctx, c.engine, true, func(txn *Transaction) (interface{}, error) {
-		// remember the state of the transaction
-		catalog, dirty := txn.Catalog(), txn.Dirty()
-
-		res, err := txn.Replace(c.handle, query, sort, repl, upsert)
-		if err != nil {
-			return nil, err
-		}
-
-		// reject an invalid projection while the write can still be undone
-		// (the transaction may be a session transaction that lives on)
-		err = checkProjection(projection, res)
-		if err != nil {
-			txn.reset(catalog, dirty)
-			return nil, err
-		}
-
-		return res, nil
+		// reject an invalid projection before the write becomes part of the
+		// transaction (it may be a session transaction that lives on)
+		return txn.replaceChecked(c.handle, query, sort, repl, upsert, func(res *Result) error {
+			return checkProjection(projection, res)
+		})
 	})
 	if err != nil {
 		return &SingleResult{err: err}
@@ -925,23 +901,11 @@ func (c *Collection) FindOneAndUpdate(ctx context.Context, filter, update interf
 
 	// update documents
 	res, err := useTransaction(ctx, c.engine, true, func(txn *Transaction) (interface{}, error) {
-		// remember the state of the transaction
-		catalog, dirty := txn.Catalog(), txn.Dirty()
-
-		res, err := txn.Update(c.handle, query, sort, upd, 0, 1, upsert, arrayFilters)
-		if err != nil {
-			return nil, err
-		}
-
-		// reject an invalid projection while the write can still be undone
-		// (the transaction may be a session transaction that lives on)
-		err = checkProjection(projection, res)
-		if err != nil {
-			txn.reset(catalog, dirty)
-			return nil, err
-		}
-
-		return res, nil
+		// reject an invalid projection before the write becomes part of the
+		// transaction (it may be a session transaction that lives on)
+		return txn.updateChecked(c.handle, query, sort, upd, 0, 1, upsert, arrayFilters, func(res *Result) error {
+			return checkProjection(projection, res)
+		})
 	})
 	if err != nil {
 		return &SingleResult{err: err}
